@@ -513,9 +513,14 @@ theorem evalStep_isSome (env : VEnv) (srec : Spec.Rec) (scope0 : List NodeId) (s
     simp only [hn', hd7, if_true, Option.isSome_map]
     exact h1
   · have hnd7 : ((specEnvOf env).draft == .d7 && n.ref != "") = false := by simpa using hd7
-    have h2 : (Spec.kwDynamicRef (specEnvOf env) (srec (scope0 ++ [s])) (scope0 ++ [s]) s n j).isSome = true := by
+    have h2 : (Spec.kwDynamicRef (specEnvOf env) (srec (scope0 ++ [s])) (scope0 ++ [s]) s
+        (Spec.vocab (specEnvOf env).draft n) j).isSome = true := by
       apply kwDynamicRef_isSome
-      intro hp
+      intro hp0
+      have hp : (n.dynamicRef != "") = true := by
+        cases hdd : (specEnvOf env).draft <;> rw [hdd] at hp0
+        · simp [Spec.vocab] at hp0
+        · exact hp0
       obtain ⟨i, hi⟩ := isSome_eq_some (hcl.dyn hp)
       refine ⟨i, hi, hin i (mem_edges_dyn env s n hn ?_), ?_⟩
       · unfold dynEdges
